@@ -45,15 +45,37 @@ def _reset_globals():
     tempfile.tempdir = None
 
 
+class CaseHang(BaseException):
+    """Raised by the CPU-time watchdog inside a case (BaseException: petl's own `except Exception` must not eat it)."""
+
+
+HANG_LIMIT = float(os.environ.get("PV_HANG_LIMIT", "30"))
+
+
+def _on_vtalrm(signum, frame):
+    raise CaseHang("no result after %.0f s of CPU time" % HANG_LIMIT)
+
+
 def run_case(sub, case, tier, scratch):
     """Execute one case.  Returns (fail_or_None, ctx).  Exceptions from inside petl that the
     check did not anticipate are violations ('uncaught'); exceptions raised purely by harness
     code propagate (harness error, exit 2)."""
     ctx = Ctx(tier, scratch)
     _reset_globals()
+    # watchdog on the process's own CPU time (machine load does not count): a case normally takes milliseconds, so a case
+    # that burns HANG_LIMIT seconds inside petl is a pass that never ends, which every property here excludes
+    signal.signal(signal.SIGVTALRM, _on_vtalrm)
     try:
         try:
-            fail = sub.check(case, ctx)
+            signal.setitimer(signal.ITIMER_VIRTUAL, HANG_LIMIT)
+            try:
+                fail = sub.check(case, ctx)
+            finally:
+                signal.setitimer(signal.ITIMER_VIRTUAL, 0)
+        except CaseHang as e:
+            if petl_frame(e) is None:
+                raise RuntimeError("harness code made no progress for %.0f s of CPU time" % HANG_LIMIT)
+            fail = exc_fail(sub.name + "/no-progress", e)
         except Exception as e:  # noqa
             if petl_frame(e) is None:
                 raise
